@@ -402,4 +402,601 @@ Section Topo.
     - apply (get_entry_map (fun e => nts_replicas g (fst e) d m)).
     - apply (sorted_weak_map (fun e => nts_replicas g (fst e) d m)). apply sort_ring_sorted.
   Qed.
+
+  (* ============================================================= datacenter restriction *)
+  Lemma nts_replicas_in_dc g t d rf x : In x (nts_replicas g t d rf) -> in_dc d x = true.
+  Proof.
+    unfold Replicas.nts_replicas. intros H.
+    eapply subseq_In in H; [|apply nts_walk_subseq].
+    rewrite uniq_In, ring_range_In, in_map_iff in H. destruct H as (e & <- & He).
+    apply dc_ring_In in He. tauto.
+  Qed.
+
+  Lemma get_nts_in_dc g pre t d rf x : In x (get_nts g pre t d rf) -> in_dc d x = true.
+  Proof.
+    unfold Replicas.get_nts. destruct rf as [|rf']; [intros []|].
+    destruct (get_pre_nts g pre t d (S rf')) as [l|] eqn:E; [|apply nts_replicas_in_dc].
+    unfold Replicas.get_pre_nts in E. destruct (pre_ring_rf dcf rackf g pre d (S rf')) as [m|]; [|discriminate].
+    unfold pre_lookup in E. destruct (get_entry_for_token (dc_ring g d) t) as [e|]; cbn [option_map] in E; [|discriminate].
+    injection E as <-. intros H. apply In_firstn in H. now apply nts_replicas_in_dc in H.
+  Qed.
+
+  Lemma ring_dcs_In g d : In d (ring_dcs g) <-> exists e, In e g /\ dcf (snd e) = Some d.
+  Proof.
+    unfold Replicas.ring_dcs. rewrite uniq_In, filter_map_In. split.
+    - intros (x & Hx & E). apply in_map_iff in Hx. destruct Hx as (e & <- & He). eauto.
+    - intros (e & He & E). exists (snd e). split; [now apply in_map|assumption].
+  Qed.
+
+  Lemma dc_ring_nil g d : ~ In d (ring_dcs g) -> dc_ring g d = [].
+  Proof.
+    intros H. destruct (dc_ring g d) as [|e r] eqn:E; [reflexivity|]. exfalso. apply H.
+    assert (He : In e (dc_ring g d)) by (rewrite E; now left). apply dc_ring_In in He. destruct He as [He Hd].
+    apply ring_dcs_In. exists e. split; [assumption|]. unfold Replicas.in_dc in Hd.
+    destruct (dcf (snd e)); [|discriminate]. apply N.eqb_eq in Hd. now subst.
+  Qed.
+
+  Lemma nts_replicas_absent g t d rf : dc_ring g d = [] -> nts_replicas g t d rf = [].
+  Proof. intros E. unfold Replicas.nts_replicas. rewrite E. reflexivity. Qed.
+
+  Lemma get_nts_absent g pre t d rf : ~ In d (ring_dcs g) -> get_nts g pre t d rf = [].
+  Proof.
+    intros H. pose proof (dc_ring_nil g d H) as E. unfold Replicas.get_nts. destruct rf as [|rf']; [reflexivity|].
+    unfold Replicas.get_pre_nts, pre_ring_rf. rewrite E.
+    destruct (dc_rfs pre d); now apply nts_replicas_absent.
+  Qed.
+
+  Lemma filter_flat_map_dc (F : N -> list N) dcs d :
+    NoDup dcs -> (forall d' x, In x (F d') -> in_dc d' x = true) ->
+    filter (in_dc d) (flat_map F dcs) = if mem d dcs then F d else [].
+  Proof.
+    intros Hn HF. induction Hn as [|d' r Hd' Hr IH]; [reflexivity|]. cbn [flat_map]. rewrite filter_app, IH.
+    unfold mem. cbn [mem_by existsb]. destruct (N.eqb d d') eqn:E; cbn [orb].
+    - apply N.eqb_eq in E. subst d'.
+      assert (Hm : mem d r = false) by (now apply mem_false). unfold mem in Hm. rewrite Hm, app_nil_r.
+      apply filter_id_all. intros x Hx. now apply HF.
+    - rewrite filter_nil_all; [reflexivity|]. intros x Hx. destruct (in_dc d x) eqn:Ed; [|reflexivity].
+      pose proof (in_dc_unique _ _ _ Ed (HF _ _ Hx)). subst. rewrite N.eqb_refl in E. discriminate.
+  Qed.
+
+  Lemma dc_filter g pre t s d :
+    rs_iter dcf rackf g pre t (replicas_for dcf rackf g pre t s (Some d)) =
+    filter (in_dc d) (rs_iter dcf rackf g pre t (replicas_for dcf rackf g pre t s None)).
+  Proof.
+    destruct s as [rf|m| |]; cbn [replicas_for rs_iter]; try reflexivity.
+    rewrite (filter_flat_map_dc (fun d' => get_nts g pre t d' (rf_or0 m d')) (ring_dcs g) d (uniq_NoDup _)
+               (fun d' x => get_nts_in_dc g pre t d' _ x)).
+    destruct (mem d (ring_dcs g)) eqn:Em.
+    - unfold rf_or0. destruct (rf_lookup m d); reflexivity.
+    - apply mem_false in Em. destruct (rf_lookup m d); cbn [rs_iter]; [now apply get_nts_absent|reflexivity].
+  Qed.
+
+  (* ============================================================= sizes *)
+  (* number of racks in [w] not yet in [used] *)
+  Fixpoint newc (used : list (option N)) (w : list N) : nat :=
+    match w with
+    | [] => 0%nat
+    | n :: r => if mem_by oeqb (rackf n) used then newc used r else S (newc (rackf n :: used) r)
+    end.
+
+  Lemma newc_uniq used w : newc used w = List.length (uniq_aux oeqb used (map rackf w)).
+  Proof.
+    revert used. induction w as [|n r IH]; intros used; [reflexivity|]. cbn [newc map uniq_aux].
+    destruct (mem_by oeqb (rackf n) used); [apply IH|]. cbn [List.length]. now rewrite IH.
+  Qed.
+
+  Lemma newc_le used w : (newc used w <= List.length w)%nat.
+  Proof.
+    revert used. induction w as [|n r IH]; intros used; [cbn; lia|]. cbn [newc List.length].
+    destruct (mem_by oeqb (rackf n) used); [specialize (IH used)|specialize (IH (rackf n :: used))]; lia.
+  Qed.
+
+  Lemma nts_walk_length used reps left w :
+    List.length (nts_walk used reps left w) =
+    Nat.min left (newc used w + Nat.min reps (List.length w - newc used w))%nat.
+  Proof.
+    revert used reps left. induction w as [|n r IH]; intros used reps left; cbn [Replicas.nts_walk newc].
+    - cbn. lia.
+    - destruct left as [|left']; [reflexivity|].
+      destruct (mem_by oeqb (rackf n) used) eqn:E; cbn [negb].
+      + pose proof (newc_le used r). destruct reps as [|reps'].
+        * rewrite IH. cbn [List.length]. lia.
+        * cbn [List.length]. rewrite IH. lia.
+      + cbn [List.length]. rewrite IH. pose proof (newc_le (rackf n :: used) r). lia.
+  Qed.
+
+  Lemma nts_walk_all used reps left w :
+    (List.length w <= left)%nat -> (List.length w - newc used w <= reps)%nat -> nts_walk used reps left w = w.
+  Proof.
+    revert used reps left. induction w as [|n r IH]; intros used reps left H1 H2; [reflexivity|].
+    cbn [Replicas.nts_walk newc List.length] in *. destruct left as [|left']; [lia|].
+    destruct (mem_by oeqb (rackf n) used) eqn:E; cbn [negb].
+    - pose proof (newc_le used r). destruct reps as [|reps']; [lia|]. f_equal. apply IH; lia.
+    - f_equal. apply IH; lia.
+  Qed.
+
+  Lemma walk_length r t : List.length (uniq (ring_range r t)) = List.length (unique_nodes r).
+  Proof. apply (uniq_by_length_ext N.eqb Neqb_eq). intros y. apply ring_range_In. Qed.
+
+  Lemma walk_newc r t : newc [] (uniq (ring_range r t)) = rack_count r.
+  Proof.
+    rewrite newc_uniq. unfold Replicas.rack_count. apply (uniq_by_length_ext oeqb oeqb_eq).
+    intros y. rewrite !in_map_iff. split.
+    - intros (x & <- & Hx). rewrite uniq_In, ring_range_In, in_map_iff in Hx. destruct Hx as (e & <- & He). eauto.
+    - intros (e & <- & He). exists (snd e). split; [reflexivity|]. rewrite uniq_In, ring_range_In. now apply in_map.
+  Qed.
+
+  Lemma nts_len g t d rf : List.length (nts_replicas g t d rf) = Nat.min rf (nodes_in_dc dcf g d).
+  Proof.
+    unfold Replicas.nts_replicas, nodes_in_dc. rewrite nts_walk_length, walk_length, walk_newc.
+    pose proof (rack_count_le_nodes (dc_ring g d)). lia.
+  Qed.
+
+  Lemma nts_sat g t d rf : (nodes_in_dc dcf g d <= rf)%nat ->
+    nts_replicas g t d rf = uniq (ring_range (dc_ring g d) t).
+  Proof.
+    unfold nodes_in_dc. intros H. unfold Replicas.nts_replicas. apply nts_walk_all.
+    - rewrite walk_length. lia.
+    - rewrite walk_length, walk_newc. pose proof (rack_count_le_nodes (dc_ring g d)). lia.
+  Qed.
+
+  Lemma nts_min g t d rf : nts_replicas g t d (Nat.min rf (nodes_in_dc dcf g d)) = nts_replicas g t d rf.
+  Proof.
+    destruct (Nat.le_ge_cases rf (nodes_in_dc dcf g d)) as [H|H].
+    - now rewrite Nat.min_l.
+    - rewrite Nat.min_r by assumption. rewrite !nts_sat by lia. reflexivity.
+  Qed.
+
+  (* ============================================================= views *)
+  Lemma list_sum_perm l l' : Permutation l l' -> list_sum l = list_sum l'.
+  Proof. unfold list_sum. induction 1; cbn [fold_right]; lia. Qed.
+
+  Lemma list_sum_cons x l : list_sum (x :: l) = (x + list_sum l)%nat.
+  Proof. reflexivity. Qed.
+
+  Lemma list_sum_filter_zero (f : N -> nat) (p : N -> bool) l :
+    (forall d, In d l -> p d = false -> f d = 0%nat) ->
+    list_sum (map f l) = list_sum (map f (filter p l)).
+  Proof.
+    induction l as [|x r IH]; intros H; [reflexivity|]. cbn [map filter].
+    rewrite list_sum_cons, IH by (intros d Hd; apply H; now right).
+    destruct (p x) eqn:E; [cbn [map]; now rewrite list_sum_cons|]. rewrite (H x (or_introl eq_refl) E). reflexivity.
+  Qed.
+
+  Lemma sum_vanish (f : N -> nat) l1 l2 : NoDup l1 -> NoDup l2 ->
+    (forall d, In d l1 -> ~ In d l2 -> f d = 0%nat) ->
+    (forall d, In d l2 -> ~ In d l1 -> f d = 0%nat) ->
+    list_sum (map f l1) = list_sum (map f l2).
+  Proof.
+    intros N1 N2 H1 H2.
+    rewrite (list_sum_filter_zero f (fun d => mem d l2) l1), (list_sum_filter_zero f (fun d => mem d l1) l2).
+    - apply list_sum_perm, Permutation_map, NoDup_Permutation; try (apply NoDup_filter; assumption).
+      intros d. rewrite !filter_In, !mem_In. tauto.
+    - intros d Hd E. apply H2; [assumption|now apply mem_false].
+    - intros d Hd E. apply H1; [assumption|now apply mem_false].
+  Qed.
+
+  Lemma rf_lookup_In m d rf : NoDup (map fst m) -> In (d, rf) m -> rf_lookup m d = Some rf.
+  Proof.
+    induction m as [|[d' rf'] r IH]; intros Hn Hi; [destruct Hi|]. cbn [rf_lookup].
+    cbn [map fst] in Hn. inversion Hn as [|? ? Hd' Hn']; subst.
+    destruct Hi as [[= -> ->]|Hi]; [now rewrite N.eqb_refl|].
+    destruct (N.eqb d' d) eqn:E; [|auto]. apply N.eqb_eq in E. subst. exfalso. apply Hd'.
+    apply in_map_iff. exists (d, rf). split; [reflexivity|assumption].
+  Qed.
+
+  Lemma rf_lookup_Some m d rf : rf_lookup m d = Some rf -> In (d, rf) m.
+  Proof.
+    induction m as [|[d' rf'] r IH]; cbn [rf_lookup]; [discriminate|].
+    destruct (N.eqb d' d) eqn:E; [|intros H; right; auto]. apply N.eqb_eq in E. subst. intros [= ->]. now left.
+  Qed.
+
+  Lemma rf_lookup_None m d : rf_lookup m d = None -> ~ In d (map fst m).
+  Proof.
+    induction m as [|[d' rf'] r IH]; cbn [rf_lookup map fst]; [intros _ []|].
+    destruct (N.eqb d' d) eqn:E; [discriminate|]. intros H [C|C]; [subst; rewrite N.eqb_refl in E; discriminate|now apply IH].
+  Qed.
+
+  Section Views.
+    Variables (g : ring N) (pre : list strategy) (t : Z).
+    Hypothesis Hg : sorted_weak g.
+    Hypothesis Hd : forall d, sorted_strict (dcpos g d).
+
+    Let F (m : list (N * nat)) (d : N) := get_nts g pre t d (rf_or0 m d).
+
+    Lemma get_nts_eq d rf : get_nts g pre t d rf = nts_replicas g t d rf.
+    Proof. apply precomputed_nts. rewrite dc_ring_sorted by assumption. apply Hd. Qed.
+
+    Lemma F_length m d : List.length (F m d) = Nat.min (rf_or0 m d) (nodes_in_dc dcf g d).
+    Proof. unfold F. rewrite get_nts_eq. apply nts_len. Qed.
+
+    Lemma nodes_in_dc_absent d : ~ In d (ring_dcs g) -> nodes_in_dc dcf g d = 0%nat.
+    Proof. intros H. unfold nodes_in_dc. now rewrite (dc_ring_nil g d H). Qed.
+
+    Lemma flat_map_length (G : N -> list N) l : List.length (flat_map G l) = list_sum (map (fun d => List.length (G d)) l).
+    Proof. induction l as [|x r IH]; [reflexivity|]. cbn [flat_map map]. now rewrite list_sum_cons, app_length, IH. Qed.
+
+    Lemma len_chained m : NoDup (map fst m) ->
+      rs_len dcf g (RChained m) = List.length (rs_iter dcf rackf g pre t (RChained m)).
+    Proof.
+      intros Hm. cbn [rs_len rs_iter]. fold (F m). rewrite flat_map_length.
+      rewrite (map_ext _ (fun d => Nat.min (rf_or0 m d) (nodes_in_dc dcf g d)) (F_length m)).
+      transitivity (list_sum (map (fun d => Nat.min (rf_or0 m d) (nodes_in_dc dcf g d)) (map fst m))).
+      - rewrite map_map.
+        assert (G : forall m', (forall e, In e m' -> In e m) ->
+          fold_right (fun e acc => (Nat.min (snd e) (nodes_in_dc dcf g (fst e)) + acc)%nat) 0%nat m' =
+          list_sum (map (fun x => Nat.min (rf_or0 m (fst x)) (nodes_in_dc dcf g (fst x))) m')).
+        { induction m' as [|[d rf] r IH]; intros Hin; [reflexivity|]. cbn [fold_right map fst snd].
+          rewrite list_sum_cons, IH by (intros e He; apply Hin; now right).
+          assert (E : rf_or0 m d = rf) by (unfold rf_or0; now rewrite (rf_lookup_In m d rf Hm (Hin _ (or_introl eq_refl)))).
+          now rewrite E. }
+        apply G. auto.
+      - apply sum_vanish; [assumption|apply uniq_NoDup| |].
+        + intros d _ Hn. rewrite (nodes_in_dc_absent d Hn). lia.
+        + intros d _ Hn. unfold rf_or0. destruct (rf_lookup m d) as [rf|] eqn:E; [|reflexivity].
+          exfalso. apply Hn. apply in_map_iff. exists (d, rf). split; [reflexivity|now apply rf_lookup_Some].
+    Qed.
+
+    Lemma nth_chained_spec m rest cur k :
+      nth_chained dcf rackf g pre t m rest cur k = nth_error (cur ++ flat_map (F m) rest) k.
+    Proof.
+      revert cur k. induction rest as [|d rest IH]; intros cur k; cbn [nth_chained flat_map].
+      - rewrite app_nil_r. destruct (k <? List.length cur)%nat eqn:E; [reflexivity|].
+        symmetry. apply nth_error_None. apply Nat.ltb_ge in E. lia.
+      - destruct (k <? List.length cur)%nat eqn:E.
+        + apply Nat.ltb_lt in E. now rewrite nth_error_app1.
+        + apply Nat.ltb_ge in E. rewrite IH. fold (F m d). now rewrite (nth_error_app2 cur) by assumption.
+    Qed.
+
+    Lemma nth_view s k : rs_nth dcf rackf g pre t s k = nth_error (rs_iter dcf rackf g pre t s) k.
+    Proof.
+      destruct s as [l|l d|m]; cbn [rs_nth rs_iter].
+      - destruct (List.length l <=? k)%nat eqn:E; [|reflexivity]. symmetry. apply nth_error_None. now apply Nat.leb_le.
+      - reflexivity.
+      - destruct (ring_dcs g) as [|d rest]; [now destruct k|]. rewrite nth_chained_spec. reflexivity.
+    Qed.
+
+    Lemma choose_chained_spec m dcs k :
+      choose_chained dcf rackf g pre t m dcs k = nth_error (flat_map (F m) dcs) k.
+    Proof.
+      revert k. induction dcs as [|d rest IH]; intros k; cbn [choose_chained flat_map]; [now destruct k|].
+      rewrite !get_nts_eq, nts_min, <- get_nts_eq. fold (F m d). rewrite <- F_length.
+      destruct (k <? List.length (F m d))%nat eqn:E.
+      - apply Nat.ltb_lt in E. now rewrite nth_error_app1.
+      - apply Nat.ltb_ge in E. rewrite IH. now rewrite nth_error_app2.
+    Qed.
+
+    Lemma choose_view s k : (forall m, s = RChained m -> NoDup (map fst m)) ->
+      rs_choose dcf rackf g pre t s k = nth_error (rs_iter dcf rackf g pre t s) k.
+    Proof.
+      intros Hm. unfold rs_choose. destruct (rs_len dcf g s =? 0)%nat eqn:E.
+      - apply Nat.eqb_eq in E. symmetry. apply nth_error_None.
+        destruct s as [l|l d|m].
+        + cbn [rs_len rs_iter] in *. lia.
+        + cbn [rs_len rs_iter] in *. lia.
+        + rewrite (len_chained m (Hm m eq_refl)) in E. lia.
+      - destruct s as [l|l d|m]; cbn [rs_iter]; try reflexivity. apply choose_chained_spec.
+    Qed.
+  End Views.
+
+  (* ============================================================= ring-ordered view *)
+  Lemma filter_filter_and {A} (p q : A -> bool) u : filter p (filter q u) = filter (fun x => q x && p x) u.
+  Proof.
+    induction u as [|x r IH]; [reflexivity|]. cbn [filter]. destruct (q x); cbn [andb filter]; [|assumption].
+    destruct (p x); now rewrite IH.
+  Qed.
+
+  Lemma NoDup_app_disjoint {A} (a b : list A) :
+    NoDup a -> NoDup b -> (forall x, In x a -> ~ In x b) -> NoDup (a ++ b).
+  Proof.
+    induction 1 as [|x r Hx Hr IH]; intros Hb Hd; [assumption|]. cbn [app]. constructor.
+    - rewrite in_app_iff. intros [C|C]; [contradiction|]. apply (Hd x); [now left|assumption].
+    - apply IH; [assumption|]. intros y Hy. apply Hd. now right.
+  Qed.
+
+  Lemma find_split {A} (f : A -> bool) l p : find f l = Some p ->
+    exists l1 l2, l = l1 ++ p :: l2 /\ (forall x, In x l1 -> f x = false) /\ f p = true.
+  Proof.
+    induction l as [|x r IH]; cbn [find]; [discriminate|]. destruct (f x) eqn:E.
+    - intros [= ->]. exists [], r. split; [reflexivity|]. split; [intros ? []|assumption].
+    - intros H. destruct (IH H) as (l1 & l2 & -> & H1 & H2). exists (x :: l1), l2.
+      split; [reflexivity|]. split; [|assumption]. intros y [<-|Hy]; auto.
+  Qed.
+
+  Lemma order_by_walk_fst all W : NoDup all ->
+    fst (order_by_walk all W) = filter (fun x => mem x all) (uniq W).
+  Proof.
+    revert all. induction W as [|n r IH]; intros all Hn; cbn [order_by_walk]; [reflexivity|].
+    destruct all as [|a all'].
+    - cbn [fst]. symmetry. apply filter_nil_all. reflexivity.
+    - remember (a :: all') as al eqn:Ea.
+      unfold uniq, uniq_by. cbn [uniq_aux mem_by existsb]. rewrite (uniq_aux_filter N.eqb Neqb_eq [n] r).
+      fold (uniq r). cbn [filter]. destruct (mem n al) eqn:Em.
+      + destruct (order_by_walk (remove_by N.eqb n al) r) as [o left] eqn:Eo. cbn [fst]. f_equal.
+        pose proof (IH (remove_by N.eqb n al) (remove_by_NoDup N.eqb Neqb_eq n al Hn)) as IH'.
+        rewrite Eo in IH'. cbn [fst] in IH'. rewrite IH', filter_filter_and. apply filter_ext. intros x.
+        apply Bool.eq_iff_eq_true. rewrite andb_true_iff, negb_true_iff, !mem_In, (remove_by_In N.eqb Neqb_eq).
+        cbn [mem_by existsb]. rewrite orb_false_r. rewrite N.eqb_neq. tauto.
+      + rewrite IH by assumption. rewrite filter_filter_and. apply filter_ext_in. intros x Hx.
+        cbn [mem_by existsb]. rewrite orb_false_r. destruct (N.eqb x n) eqn:E; [|reflexivity].
+        apply N.eqb_eq in E. subst x. cbn [negb andb]. now rewrite Em.
+  Qed.
+
+  Lemma order_by_walk_snd all W : (forall x, In x all -> In x W) -> snd (order_by_walk all W) = [].
+  Proof.
+    revert all. induction W as [|n r IH]; intros all Hs; cbn [order_by_walk].
+    - destruct all as [|a all']; [reflexivity|]. destruct (Hs a (or_introl eq_refl)).
+    - destruct all as [|a all']; [reflexivity|]. remember (a :: all') as al eqn:Ea.
+      destruct (mem n al) eqn:Em.
+      + destruct (order_by_walk (remove_by N.eqb n al) r) as [o left] eqn:Eo. cbn [snd].
+        pose proof (IH (remove_by N.eqb n al)) as IH'. rewrite Eo in IH'. apply IH'.
+        intros x Hx. apply (remove_by_In N.eqb Neqb_eq) in Hx. destruct Hx as [Hx Hne].
+        destruct (Hs x Hx) as [->|]; [contradiction|assumption].
+      + apply IH. intros x Hx. destruct (Hs x Hx) as [<-|]; [|assumption].
+        apply mem_false in Em. contradiction.
+  Qed.
+
+  Lemma nts_replicas_in_ring g t d rf x : In x (nts_replicas g t d rf) -> In x (map snd g).
+  Proof.
+    unfold Replicas.nts_replicas. intros H.
+    eapply subseq_In in H; [|apply nts_walk_subseq].
+    rewrite uniq_In, ring_range_In, in_map_iff in H. destruct H as (e & <- & He).
+    apply dc_ring_In in He. apply in_map. tauto.
+  Qed.
+
+  Lemma ring_range_dc g t d : sorted_strict g ->
+    ring_range (dc_ring g d) t = filter (in_dc d) (ring_range g t).
+  Proof.
+    intros Hs. rewrite dc_ring_sorted by now apply sorted_strict_weak. unfold ring_range, dcpos.
+    rewrite ring_range_full_clockwise by now apply sorted_strict_filter.
+    rewrite <- clockwise_filter, map_snd_filter. now rewrite ring_range_full_clockwise.
+  Qed.
+
+  Section Ordered.
+    Variables (g : ring N) (pre : list strategy) (t : Z).
+    Hypothesis Hs : sorted_strict g.
+
+    Let Hg : sorted_weak g := sorted_strict_weak g Hs.
+    Let Hd : forall d, sorted_strict (dcpos g d) := fun d => sorted_strict_filter _ g Hs.
+    Let W := ring_range g t.
+    Let U := uniq W.
+    Let F (m : list (N * nat)) (d : N) := get_nts g pre t d (rf_or0 m d).
+
+    Lemma U_NoDup : NoDup U.
+    Proof. apply uniq_NoDup. Qed.
+
+    Lemma simple_subseq rf : subseq (get_simple g pre t rf) U.
+    Proof. rewrite precomputed_simple, simple_replicas_firstn by assumption. apply subseq_firstn. Qed.
+
+    Lemma nts_subseq d rf : subseq (get_nts g pre t d rf) U.
+    Proof.
+      rewrite (get_nts_eq g pre t Hg Hd). unfold Replicas.nts_replicas.
+      eapply subseq_trans; [apply nts_walk_subseq|]. rewrite ring_range_dc by assumption.
+      rewrite uniq_filter_comm. apply subseq_filter.
+    Qed.
+
+    Lemma F_has m d x : In x (F m d) ->
+      has_replicas dcf m x = true /\ In x W /\ dcf x = Some d /\ (0 < rf_or0 m d)%nat.
+    Proof.
+      unfold F. intros H. pose proof (get_nts_in_dc _ _ _ _ _ _ H) as Hdc.
+      assert (Hrf : (0 < rf_or0 m d)%nat).
+      { destruct (rf_or0 m d); [destruct H|lia]. }
+      assert (Hx : dcf x = Some d).
+      { unfold Replicas.in_dc in Hdc. destruct (dcf x); [|discriminate]. apply N.eqb_eq in Hdc. now subst. }
+      split; [|split; [|split; assumption]].
+      - unfold has_replicas. rewrite Hx. unfold rf_or0 in Hrf. destruct (rf_lookup m d); [now apply Nat.ltb_lt|lia].
+      - apply ring_range_In. rewrite (get_nts_eq g pre t Hg Hd) in H. now apply nts_replicas_in_ring in H.
+    Qed.
+
+    Lemma iter_chained_NoDup m : NoDup (flat_map (F m) (ring_dcs g)).
+    Proof.
+      assert (G : forall dcs, NoDup dcs -> NoDup (flat_map (F m) dcs)).
+      { induction 1 as [|d r Hdr Hr IH]; [constructor|]. cbn [flat_map]. apply NoDup_app_disjoint.
+        - apply (subseq_NoDup _ U (nts_subseq d _) U_NoDup).
+        - assumption.
+        - intros x Hx C. apply in_flat_map in C. destruct C as (d' & Hd' & Hx').
+          apply F_has in Hx, Hx'. destruct Hx as (_ & _ & E1 & _), Hx' as (_ & _ & E2 & _). congruence. }
+      apply G, uniq_NoDup.
+    Qed.
+
+    Lemma ordered_chained m : NoDup (map fst m) ->
+      ordered_nts dcf rackf g pre t m =
+      (filter (fun x => mem x (flat_map (F m) (ring_dcs g))) U, []).
+    Proof.
+      intros Hm. set (S := flat_map (F m) (ring_dcs g)).
+      assert (HS : forall x, In x S -> has_replicas dcf m x = true /\ In x W).
+      { intros x Hx. apply in_flat_map in Hx. destruct Hx as (d & _ & Hx). apply F_has in Hx. tauto. }
+      set (all := uniq (flat_map (fun e => get_nts g pre t (fst e) (snd e)) m)).
+      assert (Hall : forall x, In x all <-> In x S).
+      { intros x. unfold all, S. rewrite uniq_In, !in_flat_map. split.
+        - intros ([d rf] & He & Hx). cbn [fst snd] in Hx. exists d.
+          assert (E : rf_or0 m d = rf) by (unfold rf_or0; now rewrite (rf_lookup_In m d rf Hm He)).
+          unfold F. rewrite E. split; [|assumption].
+          destruct (in_dec N.eq_dec d (ring_dcs g)) as [|Hn]; [assumption|].
+          rewrite (get_nts_absent _ _ _ _ _ Hn) in Hx. destruct Hx.
+        - intros (d & Hdd & Hx). pose proof (F_has m d x Hx) as (_ & _ & _ & Hrf). unfold F in Hx.
+          unfold rf_or0 in *. destruct (rf_lookup m d) as [rf|] eqn:E; [|lia].
+          exists (d, rf). split; [now apply rf_lookup_Some|assumption]. }
+      unfold ordered_nts. fold W. fold all.
+      destruct (find (has_replicas dcf m) W) as [p|] eqn:Ef.
+      - destruct (find_split _ _ _ Ef) as (W1 & W2 & EW & HW1 & Hp).
+        destruct (order_by_walk (remove_by N.eqb p all) W) as [o left] eqn:Eo.
+        pose proof (order_by_walk_fst (remove_by N.eqb p all) W
+                      (remove_by_NoDup N.eqb Neqb_eq p all (uniq_NoDup _))) as E1.
+        assert (E2 : snd (order_by_walk (remove_by N.eqb p all) W) = []).
+        { apply order_by_walk_snd. intros x Hx. apply (remove_by_In N.eqb Neqb_eq) in Hx.
+          apply HS, Hall. tauto. }
+        rewrite Eo in E1, E2. cbn [fst snd] in E1, E2. subst o left. f_equal.
+        (* the picked node is a replica: it heads its datacenter's walk *)
+        assert (HpS : In p S).
+        { unfold has_replicas in Hp. destruct (dcf p) as [d|] eqn:Edp; [|discriminate].
+          destruct (rf_lookup m d) as [rf|] eqn:Erf; [|discriminate]. apply Nat.ltb_lt in Hp.
+          assert (HpW : In p W) by (rewrite EW; apply in_or_app; right; now left).
+          apply in_flat_map. exists d. split.
+          - apply ring_dcs_In. apply ring_range_In, in_map_iff in HpW. destruct HpW as (e & <- & He). eauto.
+          - unfold F, rf_or0. rewrite Erf, (get_nts_eq g pre t Hg Hd). unfold Replicas.nts_replicas.
+            assert (Ewalk : exists Y, ring_range (dc_ring g d) t = p :: Y).
+            { rewrite ring_range_dc by assumption. fold W. rewrite EW, filter_app. cbn [filter].
+              assert (Ein : in_dc d p = true) by (unfold Replicas.in_dc; rewrite Edp; apply N.eqb_refl).
+              rewrite Ein. rewrite filter_nil_all; [eexists; reflexivity|].
+              intros x Hx. destruct (in_dc d x) eqn:Ex; [|reflexivity].
+              specialize (HW1 x Hx). unfold has_replicas in HW1. unfold Replicas.in_dc in Ex.
+              destruct (dcf x) as [d'|]; [|discriminate]. apply N.eqb_eq in Ex. subst d'.
+              rewrite Erf in HW1. apply Nat.ltb_ge in HW1. lia. }
+            destruct Ewalk as (Y & EY).
+            pose proof (walk_length (dc_ring g d) t) as Hlen. rewrite EY in *.
+            unfold uniq, uniq_by in *. cbn [uniq_aux mem_by existsb] in *. cbn [List.length] in Hlen.
+            destruct (Nat.min rf (List.length (unique_nodes (dc_ring g d)))) as [|k] eqn:Ek; [lia|].
+            cbn [Replicas.nts_walk mem_by existsb negb]. now left. }
+        assert (HpW1 : ~ In p W1) by (intros C; specialize (HW1 p C); congruence).
+        assert (EU : U = uniq W1 ++ p :: filter (fun x => negb (mem x W1)) (uniq_aux N.eqb [p] W2)).
+        { unfold U. rewrite EW. unfold uniq. rewrite (uniq_by_app N.eqb Neqb_eq). f_equal.
+          unfold uniq_by at 1. cbn [uniq_aux mem_by existsb filter].
+          assert (Em : mem_by N.eqb p W1 = false) by now apply mem_false. rewrite Em. reflexivity. }
+        change (uniq W) with U. rewrite EU, !filter_app. cbn [filter].
+        assert (EpS : mem p S = true) by now apply mem_In. rewrite EpS.
+        assert (Epr : mem p (remove_by N.eqb p all) = false).
+        { apply mem_false. rewrite (remove_by_In N.eqb Neqb_eq). tauto. }
+        rewrite Epr.
+        rewrite (filter_nil_all (fun x => mem x (remove_by N.eqb p all)) (uniq W1)),
+                (filter_nil_all (fun x => mem x S) (uniq W1)).
+        + cbn [app]. f_equal. apply filter_ext_in. intros x Hx.
+          apply filter_In in Hx. destruct Hx as [Hx _]. apply (uniq_aux_In N.eqb Neqb_eq) in Hx.
+          destruct Hx as [_ Hxp]. apply Bool.eq_iff_eq_true.
+          rewrite !mem_In, (remove_by_In N.eqb Neqb_eq), Hall. split; [tauto|]. intros H. split; [assumption|].
+          intros ->. apply Hxp. now left.
+        + intros x Hx. apply mem_false. intros C. rewrite uniq_In in Hx. apply HS in C. specialize (HW1 x Hx). destruct C. congruence.
+        + intros x Hx. apply mem_false. intros C. apply (remove_by_In N.eqb Neqb_eq) in C. destruct C as [C _].
+          rewrite uniq_In in Hx. apply Hall, HS in C. specialize (HW1 x Hx). destruct C. congruence.
+      - (* no node on the ring belongs to a datacenter with replicas: the set is empty *)
+        f_equal. symmetry. apply filter_nil_all. intros x _. apply mem_false. intros C.
+        apply HS in C. destruct C as [C1 C2]. pose proof (find_none _ _ Ef x C2). congruence.
+    Qed.
+
+    Definition nts_keys_ok (s : strategy) : Prop :=
+      match s with NTS m => NoDup (map fst m) | _ => True end.
+
+    Lemma iter_subseq_or_chained s dc :
+      match replicas_for dcf rackf g pre t s dc with
+      | RChained _ => True
+      | r => subseq (rs_iter dcf rackf g pre t r) U
+      end.
+    Proof.
+      destruct s as [rf|m| |]; destruct dc as [d|]; cbn [replicas_for rs_iter]; trivial;
+        try apply simple_subseq;
+        try (eapply subseq_trans; [apply subseq_filter|apply simple_subseq]).
+      destruct (rf_lookup m d); cbn [rs_iter]; [apply nts_subseq|constructor].
+    Qed.
+
+    Lemma ordered_view s dc : nts_keys_ok s ->
+      rs_ordered dcf rackf g pre t (replicas_for dcf rackf g pre t s dc) =
+      (filter (fun x => mem x (rs_iter dcf rackf g pre t (replicas_for dcf rackf g pre t s dc))) U, []).
+    Proof.
+      intros Hk. pose proof (iter_subseq_or_chained s dc) as H.
+      destruct (replicas_for dcf rackf g pre t s dc) as [l|l d|m] eqn:E.
+      - cbn [rs_ordered]. f_equal. symmetry. apply subseq_filter_mem; [assumption|apply U_NoDup].
+      - cbn [rs_ordered]. f_equal. symmetry. apply subseq_filter_mem; [assumption|apply U_NoDup].
+      - cbn [rs_ordered rs_iter]. apply ordered_chained.
+        destruct s as [rf|m'| |]; destruct dc as [d|]; cbn [replicas_for] in E; try discriminate.
+        + destruct (rf_lookup m' d); discriminate.
+        + injection E as <-. exact Hk.
+    Qed.
+
+    Lemma iter_NoDup s dc : NoDup (rs_iter dcf rackf g pre t (replicas_for dcf rackf g pre t s dc)).
+    Proof.
+      pose proof (iter_subseq_or_chained s dc) as H.
+      destruct (replicas_for dcf rackf g pre t s dc) as [l|l d|m] eqn:E.
+      - apply (subseq_NoDup _ U H U_NoDup).
+      - apply (subseq_NoDup _ U H U_NoDup).
+      - cbn [rs_iter]. apply iter_chained_NoDup.
+    Qed.
+
+    Lemma iter_in_walk s dc x :
+      In x (rs_iter dcf rackf g pre t (replicas_for dcf rackf g pre t s dc)) -> In x U.
+    Proof.
+      pose proof (iter_subseq_or_chained s dc) as H.
+      destruct (replicas_for dcf rackf g pre t s dc) as [l|l d|m] eqn:E.
+      - apply (subseq_In _ _ _ H).
+      - apply (subseq_In _ _ _ H).
+      - cbn [rs_iter]. intros Hx. apply in_flat_map in Hx. destruct Hx as (d & _ & Hx).
+        apply F_has in Hx. apply uniq_In. tauto.
+    Qed.
+
+    Lemma ordered_perm s dc : nts_keys_ok s ->
+      Permutation (fst (rs_ordered dcf rackf g pre t (replicas_for dcf rackf g pre t s dc)))
+                  (rs_iter dcf rackf g pre t (replicas_for dcf rackf g pre t s dc)).
+    Proof.
+      intros Hk. rewrite (ordered_view s dc Hk). cbn [fst].
+      apply NoDup_Permutation; [apply NoDup_filter, U_NoDup|apply iter_NoDup|].
+      intros x. rewrite filter_In, mem_In. split; [tauto|]. intros H. split; [|assumption].
+      now apply (iter_in_walk s dc).
+    Qed.
+  End Ordered.
+
+  (* ============================================================= model = specification *)
+  Lemma replicas_spec_nts g pre t m dc : sorted_weak g -> (forall d, sorted_strict (dcpos g d)) ->
+    rs_iter dcf rackf g pre t (replicas_for dcf rackf g pre t (NTS m) dc) =
+    spec_replicas dcf rackf g t (NTS m) dc.
+  Proof.
+    intros Hg Hd.
+    assert (H0 : rs_iter dcf rackf g pre t (replicas_for dcf rackf g pre t (NTS m) None) = spec_nts dcf rackf g t m).
+    { cbn [replicas_for rs_iter]. unfold spec_nts. apply flat_map_ext. intros d.
+      rewrite (get_nts_eq g pre t Hg Hd). now apply nts_spec. }
+    destruct dc as [d|]; [|exact H0]. rewrite dc_filter, H0. reflexivity.
+  Qed.
+
+  Lemma replicas_spec g pre t s dc : sorted_strict g ->
+    rs_iter dcf rackf g pre t (replicas_for dcf rackf g pre t s dc) = spec_replicas dcf rackf g t s dc.
+  Proof.
+    intros Hs. destruct s as [rf|m| |].
+    - destruct dc as [d|]; cbn [replicas_for rs_iter spec_replicas];
+        now rewrite precomputed_simple, simple_spec by assumption.
+    - apply replicas_spec_nts; [now apply sorted_strict_weak|]. intros d. now apply sorted_strict_filter.
+    - destruct dc as [d|]; cbn [replicas_for rs_iter spec_replicas];
+        now rewrite precomputed_simple, simple_spec by assumption.
+    - destruct dc as [d|]; cbn [replicas_for rs_iter spec_replicas];
+        now rewrite precomputed_simple, simple_spec by assumption.
+  Qed.
+
+  (* precomputation never changes an answer *)
+  Lemma precomputed_any g pre pre' t s dc : sorted_strict g ->
+    rs_iter dcf rackf g pre t (replicas_for dcf rackf g pre t s dc) =
+    rs_iter dcf rackf g pre' t (replicas_for dcf rackf g pre' t s dc).
+  Proof. intros Hs. now rewrite !replicas_spec. Qed.
+
+  Lemma len_view g pre t s dc : sorted_weak g -> (forall d, sorted_strict (dcpos g d)) -> nts_keys_ok s ->
+    rs_len dcf g (replicas_for dcf rackf g pre t s dc) =
+    List.length (rs_iter dcf rackf g pre t (replicas_for dcf rackf g pre t s dc)).
+  Proof.
+    intros Hg Hd Hk.
+    destruct s as [rf|m| |]; destruct dc as [d|]; cbn [replicas_for]; try reflexivity.
+    - destruct (rf_lookup m d); reflexivity.
+    - now apply len_chained.
+  Qed.
+
+  Lemma choose_view' g pre t s dc k : sorted_weak g -> (forall d, sorted_strict (dcpos g d)) -> nts_keys_ok s ->
+    rs_choose dcf rackf g pre t (replicas_for dcf rackf g pre t s dc) k =
+    nth_error (rs_iter dcf rackf g pre t (replicas_for dcf rackf g pre t s dc)) k.
+  Proof.
+    intros Hg Hd Hk. apply choose_view; try assumption. intros m E.
+    destruct s as [rf|m'| |]; destruct dc as [d|]; cbn [replicas_for] in E; try discriminate.
+    - destruct (rf_lookup m' d); discriminate.
+    - injection E as <-. exact Hk.
+  Qed.
 End Topo.
+
+(* the ring the locator stores: sorted, same entries; distinct tokens give strict order *)
+Lemma sorted_weak_NoDup_strict {A} (l : ring A) : sorted_weak l -> NoDup (map fst l) -> sorted_strict l.
+Proof.
+  induction l as [|x r IH]; intros Hw Hn; [exact I|]. cbn [map] in Hn. inversion Hn as [|? ? Hx Hr]; subst.
+  cbn. split; [|apply IH; [now apply sorted_weak_tail in Hw|assumption]].
+  destruct r as [|y r']; [exact I|]. cbn in Hw. destruct Hw as [Hle _].
+  assert (fst x <> fst y) by (intros E; apply Hx; rewrite E; now left). lia.
+Qed.
+
+Lemma sort_ring_strict {A} (raw : ring A) : NoDup (map fst raw) -> sorted_strict (sort_ring raw).
+Proof.
+  intros H. apply sorted_weak_NoDup_strict; [apply sort_ring_sorted|].
+  apply (Permutation_NoDup (l := map fst raw)); [|assumption].
+  apply Permutation_map, Permutation_sym, sort_ring_perm.
+Qed.
